@@ -78,7 +78,7 @@ def gen_op(rng):
         stream = frame(2, bytes([rng.choice([3, 17, 31, 45])]) + bytes(rng.randrange(256) for _ in range(s0 - 1)))
         for _ in range(rng.randint(2, 4)):
             stream += frame(rng.choice([1, 2, 2, 3]), bytes(rng.randrange(256) for _ in range(rng.randint(1, s0))))
-        return "frame serve %s" % ",".join(hx(c) for c in chunkings(rng, stream))
+        return "frame serve %s%s" % (",".join(hx(c) for c in chunkings(rng, stream)), rng.choice(["", "", " wlimit=%d" % rng.randint(0, 80)]))
     for _ in range(rng.randint(0, 5)):
         ty = rng.choice([0, 1, 2, 2, 2, 3, 0xFFFFFFFF, rng.randrange(2 ** 32)])
         body = bytes(rng.randrange(256) for _ in range(rng.choice([0, 0, 1, 2, 3, 7, 8, 9, 16, 40])))
@@ -108,7 +108,13 @@ def gen_op(rng):
     elif k < 0.55:               # exactly 2 MiB announced but short body
         stream += struct.pack("<II", 2 ** 21, 2) + b"abc"
     chunks = chunkings(rng, stream)
-    return "frame %s %s" % (rng.choice(["read", "serve"]), ",".join(hx(c) for c in chunks))
+    verb = rng.choice(["read", "serve"])
+    extra = ""
+    if verb == "serve" and rng.random() < 0.3:
+        # the agent stops reading its replies after so many bytes: the write that cannot complete ends the connection, and
+        # what was written is a prefix of whole reply frames
+        extra = " wlimit=%d" % rng.choice([0, 1, 7, 8, 9, 10, 15, 16, 17, 24, 25, rng.randint(0, 60), rng.randint(0, 200)])
+    return "frame %s %s%s" % (verb, ",".join(hx(c) for c in chunks), extra)
 
 
 def plan(ctx):
